@@ -7,7 +7,9 @@
 (* scheduled execution may start:                                          *)
 (*   - before the first successful execution anything goes (free);         *)
 (*   - a successful scheduled execution [s,e) makes it {e};                *)
-(*   - a successful manual execution [s,e) ADDS e (the statement says      *)
+(*   - a successful manual execution [s,e) that starts at an allowed        *)
+(*     instant makes it {e} (it is a link of the chain); any other         *)
+(*     successful manual execution ADDS e (the statement says              *)
 (*     "starting where the previous successful execution ended", and an    *)
 (*     implementation in which a manual run leaves the schedule alone      *)
 (*     keeps the old value: both are accepted);                            *)
@@ -60,6 +62,10 @@ Apply(st, ev) ==
       THEN IF st.free /\ ~ev.xs THEN [st EXCEPT !.fl = Longer(st.fl, ev.e - ev.s)] ELSE st
     ELSE IF ev.kind = "sched" THEN [free |-> FALSE, curs |-> {ev.e}, fl |-> 0]
     ELSE IF st.free THEN [st EXCEPT !.fl = 0]      \* a successful manual run may have given the query a position
+    \* a manual window that starts exactly where the schedule stands is one more link of the chain ("each starting
+    \* where the previous successful execution ended"): the next scheduled window starts at ITS end, otherwise the
+    \* span is processed twice.  Any other manual window: both readings accepted.
+    ELSE IF ev.s \in st.curs THEN [free |-> FALSE, curs |-> {ev.e}, fl |-> 0]
     ELSE [free |-> FALSE, curs |-> st.curs \cup {ev.e}, fl |-> 0]
 
 \* re-synchronisation after a rejected event (trace validation keeps going to report every
